@@ -161,18 +161,38 @@ def search_report(seed, n):
                 rng.choice(fr).fixed = True
             if len(fx) > 1 and rng.random() < 0.5:
                 rng.choice(fx).fixed = False
+            # ... and / or re-seeds a vertex estimate, replaces a measurement (public attributes), after an extra calc_chi2()
+            edit = rng.choice(["none", "pose", "pose", "measurement"])
+            edited_edge = None
+            if rng.random() < 0.5:
+                g.calc_chi2()
+            if edit == "pose":
+                fr2 = [v for v in g._vertices if not v.fixed]
+                if fr2:
+                    vv = rng.choice(fr2)
+                    vv.pose = vv.pose + np.array([rng.gauss(0, 0.2) for _ in range(vv.pose.COMPACT_DIMENSIONALITY)])
+            elif edit == "measurement":
+                cand = [(i, e) for i, e in enumerate(g._edges) if type(e).__name__ in ("EdgeOdometry", "EdgeLandmark")]
+                if cand:
+                    ei, ee = rng.choice(cand)
+                    edited_edge = ei
+                    ee.estimate = ee.estimate + np.array([rng.gauss(0, 0.1) for _ in range(ee.estimate.COMPACT_DIMENSIONALITY)])
+                    desc = dict(desc, edges=[dict(ed, est=(np.asarray(ee.estimate).tolist() if j == ei else ed["est"])) for j, ed in enumerate(desc["edges"])])
             d2 = dict(desc)
             d2["vertices"] = [dict(vd, vals=np.asarray(v.pose).tolist(), fixed=bool(v.fixed)) for vd, v in zip(desc["vertices"], g._vertices)]
             gfresh = G.rebuild(d2)
             for vf, v in zip(gfresh._vertices, g._vertices):
                 vf.pose[:] = np.asarray(v.pose)  # identical bits (the SE(2) constructor re-wraps the angle)
+            if edited_edge is not None:
+                gfresh._edges[edited_edge].estimate[:] = np.asarray(g._edges[edited_edge].estimate)
             kk = rng.randrange(1, 4)
             ra = quiet_optimize(g, tol=0.0, max_iter=kk, fix_first_pose=False)
             rf = quiet_optimize(gfresh, tol=0.0, max_iter=kk, fix_first_pose=False)
             ev += 1
             if all(np.all(np.isfinite(p)) for p in poses(gfresh)):
-                if not same_bits(poses(g), poses(gfresh)) or not same(float(ra.final_chi2), float(rf.final_chi2)):
-                    return w("hidden_state_across_calls", iterations=kk, used_graph_final_chi2=float(ra.final_chi2), fresh_graph_final_chi2=float(rf.final_chi2), state=d2), ev
+                rep = lambda r_: [float(r_.initial_chi2), float(r_.final_chi2), r_.num_iterations, bool(r_.converged)] + [None if it.chi2 is None else float(it.chi2) for it in r_.iteration_results]
+                if not same_bits(poses(g), poses(gfresh)) or not all(same(x, y) for x, y in zip(rep(ra), rep(rf))) or len(rep(ra)) != len(rep(rf)):
+                    return w("hidden_state_across_calls", iterations=kk, edit=edit, used_graph_report=rep(ra), fresh_graph_report=rep(rf), state=d2), ev
         # split run (tol = 0): k1 then k2 iterations == k1 + k2 iterations
         k1 = rng.randrange(1, 4)
         k2 = rng.randrange(1, 4)
@@ -205,6 +225,34 @@ def dense_normal_equations(g):
         H += Jbar.T @ Om @ Jbar
         b += Jbar.T @ Om @ err
     return H, b
+
+
+def _numeric_edges_ok(g):
+    """None, or a description of an edge (one that inherits BaseEdge.calc_jacobians) whose reported Jacobian is not the
+    derivative of its error along box-plus (independent Romberg central difference, relative 1e-4)"""
+    from graphslam.edge.base_edge import BaseEdge
+    from lib.numdiff import jac
+
+    for ei, e in enumerate(g._edges):
+        if type(e).calc_jacobians is not BaseEdge.calc_jacobians:
+            continue
+        Js = [np.asarray(j, dtype=np.float64) for j in e.calc_jacobians()]
+        for kk, v in enumerate(e.vertices):
+            p = v.pose
+            c = p.COMPACT_DIMENSIONALITY
+
+            def f(d, kk=kk, p=p):
+                e.vertices[kk].pose = p + d
+                try:
+                    return np.atleast_1d(np.asarray(e.calc_error(), dtype=np.float64))
+                finally:
+                    e.vertices[kk].pose = p
+
+            num = jac(f, np.zeros(c), h0=1e-3)
+            ana = Js[kk].reshape(num.shape) if Js[kk].size == num.size else Js[kk]
+            if ana.shape != num.shape or not np.max(np.abs(ana - num)) <= 1e-4 * (1.0 + np.max(np.abs(num))):
+                return dict(edge_index=ei, edge_class=type(e).__name__, vertex=v.id, reported=np.asarray(ana).tolist(), central_difference=num.tolist(), pose=np.asarray(p).tolist())
+    return None
 
 
 def search_step(seed, n):
@@ -249,6 +297,11 @@ def search_step(seed, n):
             want_fixed = [f or (ffp and i == 0) for i, f in enumerate(flags_before)]
             w = dict(call=rnd + 1, fix_first_pose=ffp, fixed=[v.id for v, f in zip(g._vertices, want_fixed) if f])
             # edges naming the same vertex twice are outside C03's quantifier
+            if rnd == 0 and k % 4 == 0:
+                badj = _numeric_edges_ok(g)
+                ev += 1
+                if badj:
+                    return dict(kind="step", what="a numerically differentiated edge reports a Jacobian that is not the derivative of its error: b and H are not sum J^T Omega e / J^T Omega J", match="gn-step:numeric-jacobian", desc=desc, **dict(w, **badj)), ev, skipped
             H, b = dense_normal_equations(g)
             free = np.concatenate([np.arange(v.gradient_index, v.gradient_index + v.pose.COMPACT_DIMENSIONALITY) for v, f in zip(g._vertices, want_fixed) if not f] or [np.array([], dtype=int)]).astype(int)
             before = [(v, np.array(v.pose)) for v in g._vertices]
@@ -285,6 +338,40 @@ def search_step(seed, n):
                     return dict(kind="step", what="pose after one iteration is not the Gauss-Newton step (call %d on this Graph object)" % (rnd + 1), match="gn-step", vertex=v.id, expected=exp.tolist(), got=got.tolist(), cond=float(cond), desc=desc, **w), ev, skipped
             if not all(np.all(np.isfinite(np.asarray(v.pose))) for v in g._vertices):
                 break
+        # small-step regime: converge, disturb every free vertex by ~1e-9 (box-plus units), take ONE step: each free vertex
+        # must move by its block of -H^-1 b, however small that is
+        if k % 3 == 0 and all(np.all(np.isfinite(np.asarray(v.pose))) for v in g._vertices) and any(not v.fixed for v in g._vertices):
+            try:
+                quiet_optimize(g, tol=1e-12, max_iter=15, fix_first_pose=False)
+            except Exception:  # noqa
+                continue
+            if not all(np.all(np.isfinite(np.asarray(v.pose))) for v in g._vertices) or not any(v.fixed for v in g._vertices):
+                continue
+            for v in g._vertices:
+                if not v.fixed:
+                    v.pose = v.pose + np.array([rng.gauss(0, 1e-9) for _ in range(v.pose.COMPACT_DIMENSIONALITY)])
+            H, b = dense_normal_equations(g)
+            free = np.concatenate([np.arange(v.gradient_index, v.gradient_index + v.pose.COMPACT_DIMENSIONALITY) for v in g._vertices if not v.fixed]).astype(int)
+            Hf, bf = H[np.ix_(free, free)], b[free]
+            if not np.linalg.cond(Hf) < 1e7:
+                skipped += 1
+                continue
+            dx = np.zeros(len(b))
+            dx[free] = -np.linalg.solve(Hf, bf)
+            before = [(v, np.array(v.pose)) for v in g._vertices]
+            quiet_optimize(g, tol=0.0, max_iter=1, fix_first_pose=False)
+            ev += 1
+            for v, p0 in before:
+                if v.fixed:
+                    continue
+                c = v.pose.COMPACT_DIMENSIONALITY
+                blk = dx[v.gradient_index : v.gradient_index + c]
+                exp = np.asarray(G.mk_pose(type(v.pose).__name__, p0) + blk)
+                d = np.asarray(v.pose) - exp
+                if type(v.pose).__name__ == "PoseSE2":
+                    d[2] = math.remainder(d[2], 2 * math.pi)
+                if np.max(np.abs(blk)) > 1e-10 and not np.max(np.abs(d)) <= 0.05 * np.max(np.abs(blk)) + 1e-12 * (1 + np.max(np.abs(exp))):
+                    return dict(kind="step", what="a small Gauss-Newton step was not applied (pose after one iteration differs from pose [+] dx by more than 5% of |dx|)", match="gn-step:small", vertex=v.id, step=blk.tolist(), expected=exp.tolist(), got=np.asarray(v.pose).tolist(), desc=desc), ev, skipped
     return None, ev, skipped
 
 
@@ -306,6 +393,18 @@ def search_fixed(seed, n):
             for v in desc["vertices"][1:]:
                 v["fixed"] = False
         g = G.rebuild(desc)
+        if scenario in ("normal", "all-fixed", "none-fixed") and rng.random() < 0.3:
+            # one shared initial-guess object for several vertices of a class (Vertex keeps the caller's object), fixed ones included
+            by_cls = {}
+            for v in g._vertices:
+                by_cls.setdefault(type(v.pose).__name__, []).append(v)
+            grp = [vs for vs in by_cls.values() if len(vs) >= 2 and any(v.fixed for v in vs)] or [vs for vs in by_cls.values() if len(vs) >= 2]
+            if grp:
+                vs = rng.choice(grp)
+                anchor = next((v for v in vs if v.fixed), vs[0])
+                for v in vs:
+                    v.pose = anchor.pose
+                desc = dict(desc, shared_pose_object=[v.id for v in vs])
         ffp = rng.random() < 0.5
         flags0 = [v.fixed for v in g._vertices]
         before = poses(g)
@@ -462,6 +561,21 @@ def search_numjac(seed, n):
                 worst = max(worst, dev / tol)
                 if not dev <= tol:
                     return dict(kind="numjac", what="numerical Jacobian differs from the analytic one by more than a 1e-6 forward difference allows", match="numjac-accuracy", deviation=dev, tol=tol, edge=desc["edges"][ei], desc=desc), ev, worst
+        if k % 3 == 2 and desc["world"] in ("2d", "3d", "r2", "r3"):
+            dim = 2 if desc["world"] in ("2d", "r2") else 3
+            t = [rng.sign() * rng.logu(1e3, 2e4) for _ in range(dim)]
+            dsh = dict(desc, vertices=[dict(v, vals=[x + (t[i] if i < dim else 0.0) for i, x in enumerate(v["vals"])]) for v in desc["vertices"]])
+            g0, gsh = G.rebuild(desc), G.rebuild(dsh)
+            for ei, (ea, eb) in enumerate(zip(g0._edges, gsh._edges)):
+                if len(ea.vertices) < 2:
+                    continue  # a unary edge (norm of a position) is not translation invariant
+                # landmark edges between R^n points and odometry edges are translation invariant; so are the distance edges
+                J0 = [np.asarray(j, dtype=np.float64) for j in BaseEdge.calc_jacobians(ea)]
+                J1 = [np.asarray(j, dtype=np.float64) for j in BaseEdge.calc_jacobians(eb)]
+                ev += 1
+                for a, b in zip(J0, J1):
+                    if a.shape != b.shape or not np.max(np.abs(a - b), initial=0.0) <= 5e-5 * (1 + np.max(np.abs(a), initial=0.0)):
+                        return dict(kind="numjac", what="numerical Jacobian changes when every vertex is translated by the same vector (the error does not)", match="numjac-translation", translation=t, jacobian=a.tolist(), jacobian_translated=b.tolist(), edge=desc["edges"][ei], desc=desc), ev, worst
         # twin graphs: every analytic custom edge replaced by its numerical twin (and vice versa)
         if any(e["kind"].startswith("custom") for e in desc["edges"]) and desc["world"] != "mixed":
             d1 = dict(desc, edges=[dict(e, kind="custom_num") if e["kind"].startswith("custom") else e for e in desc["edges"]])
@@ -493,7 +607,17 @@ def search_linear(seed, n):
         for v in desc["vertices"]:
             if not v["fixed"]:
                 v["vals"] = [x + rng.gauss(0, scale) for x in v["vals"]]
+        weak = rng.random() < 0.2
+        if weak:
+            wsc = 10 ** rng.uniform(-14, -8)
+            for e in desc["edges"]:
+                e["info"] = (np.asarray(e["info"], dtype=np.float64) * wsc).tolist()
+            desc = dict(desc, information_scale=wsc)
         g = G.rebuild(desc)
+        flagkind = rng.choice(["bool", "bool", "numpy.bool_", "int"])
+        if flagkind != "bool":
+            for v in g._vertices:
+                v.fixed = np.bool_(v.fixed) if flagkind == "numpy.bool_" else int(v.fixed)
         # how the caller built the objects must not matter (the initial guess is arbitrary for linear graphs):
         build = rng.choice(["plain", "plain", "shared-origin", "view-of-measurement", "reused-edges", "prior-call", "prior-call"])
         if build == "shared-origin":
@@ -562,7 +686,7 @@ def search_linear(seed, n):
         for i in fixed:
             x_fixed[dim * i : dim * i + dim] = np.asarray(g._vertices[i].pose)
         cols = np.concatenate([np.arange(dim * i, dim * i + dim) for i in free]) if free else np.array([], dtype=int)
-        r = quiet_optimize(g, tol=1e-9, max_iter=10, fix_first_pose=False)
+        r = quiet_optimize(g, tol=(rng.choice([1e-9, 1e-4]) if weak else 1e-9), max_iter=10, fix_first_pose=False)
         ev += 1
         if len(cols) == 0:
             continue
@@ -576,7 +700,7 @@ def search_linear(seed, n):
         chi_min = float(np.sum((A @ x - y) ** 2))
         got = np.concatenate([np.asarray(v.pose) for v in g._vertices])
         sc = 1 + np.max(np.abs(x))
-        w = lambda what, **kw: dict(kind="linear", what=what, match="linear:" + what, initial_scale=scale, build=build, desc=desc, **kw)
+        w = lambda what, **kw: dict(kind="linear", what=what, match="linear:" + what, initial_scale=scale, build=build, fixed_flag_type=flagkind, weak_information=weak, desc=desc, **kw)
         if not np.max(np.abs(got - x)) <= 1e-6 * sc * max(1.0, scale * 1e-6):
             return w("optimum", expected=x.tolist(), got=got.tolist()), ev, skipped
         if not abs(float(r.final_chi2) - chi_min) <= 1e-6 * (1 + chi_min) * max(1.0, scale * 1e-3):
@@ -635,6 +759,34 @@ def search_convergence(seed, n):
                 desc["edges"].append(dict(kind="odometry", vids=[vi["id"], jid], est_cls=cls, est=[float(x) for x in zv], info=(np.eye(c) * rng.logu(1, 50)).tolist()))
                 shared = (vi["id"], jid)
         g = G.rebuild(desc)
+        hist = rng.random()
+        if hist < 0.2:
+            # the edge objects were used before in a Graph over OTHER Vertex objects (a first initial guess), which was optimised;
+            # this graph has new vertices (the second guess) with the same ids
+            from graphslam.graph import Graph as _Graph
+            from graphslam.vertex import Vertex as _Vertex
+
+            try:
+                quiet_optimize(g, tol=1e-6, max_iter=3, fix_first_pose=True)
+            except Exception:  # noqa
+                pass
+            vs2 = [_Vertex(v["id"], G.mk_pose(v["cls"], v["vals"]), fixed=bool(v["fixed"])) for v in desc["vertices"]]
+            g = _Graph(list(g._edges), vs2)
+            desc = dict(desc, reused_edge_objects=True)
+            stats["reused_edge_objects"] = stats.get("reused_edge_objects", 0) + 1
+        elif hist < 0.4:
+            # a surveyed pose that no edge refers to yet: present in the vertex list, fixed, not the first vertex
+            from graphslam.graph import Graph as _Graph
+            from graphslam.vertex import Vertex as _Vertex
+
+            cls = "PoseSE2" if world == "2d" else "PoseSE3"
+            extra = _Vertex(10**6 + k, G.mk_pose(cls, G.rand_pose_vals(rng, cls)), fixed=False)
+            vs2 = list(g._vertices)
+            vs2.insert(rng.randrange(1, len(vs2) + 1), extra)
+            g = _Graph(list(g._edges), vs2)
+            extra.fixed = True  # marked after construction, as fix flags usually are
+            desc = dict(desc, isolated_fixed_vertex=extra.id)
+            stats["isolated_fixed_vertex"] = stats.get("isolated_fixed_vertex", 0) + 1
         if shared:
             byid = {v.id: v for v in g._vertices}
             byid[shared[1]].pose = byid[shared[0]].pose
